@@ -246,6 +246,9 @@ def run(chk):
     chk.lean(codegen_checks.C10_MODULE, codegen_checks.C10_THEOREMS, extra_files=codegen_checks.C10_FILES)
     with lean.Driver("driver_codegen") as d:
         codegen_checks.check_blocks(chk, d, codegen_checks.extra_entries())
+        # part='full' and part='diagonal' compilations of the same forms paired: the diagonal groups are the coincident sublist,
+        # every dropped block has disjoint block maps (hypotheses of diagonal_of_full_filtered)
+        codegen_checks.check_diag_pairs(chk, d)
 
     # options that do not apply have no effect on the generated text
     def code(objs, **kw):
